@@ -17,13 +17,15 @@ GenCharOrd(ch) == CASE ch = "-" -> 45 [] ch = "a" -> 97 [] ch = "b" -> 98 [] ch 
 
 CONSTANTS Protos,      \* set of [k, nm, c] line prototypes
           MaxInd, MaxLines, Emit, KnownDevs,
+          Stride,
           Source       \* "enum" : all texts up to MaxLines ; "file" : the texts of the JSON file env DIP_IN
                        \*          (longer texts drawn by the harness; TLC remains the oracle)
 
 VARIABLES text, idx
 
 FileTexts == IF Source = "file" THEN JsonDeserialize(IOEnv.DIP_IN) ELSE <<>>
-Stride == 64
+\* texts of the file are spread over Stride initial states and reached by Next from there; long texts need
+\* deep recursion, which only TLC's main thread (initial states) has the stack for: then Stride >= NFile
 NFile == Len(FileTexts)
 
 Init == IF Source = "enum" THEN text = <<>> /\ idx = 0
